@@ -55,6 +55,10 @@ CHECKS.update({
  'C18': ('symbolic execution of the real match(): real pyparsing on a concrete spec skeleton, operands as placeholder literals that float() maps to symbolic IEEE doubles (z3 FloatingPoint), string values as symbolic strings; results compared with the documented operator table',
          'Numeric operators and <range-in> for all finite doubles; string operators for values up to 3 (5) characters against a concrete operand family. <all-in> and symbolic operand strings are outside the claim.'),
 })
+CHECKS.update({
+ 'C12': ('symbolic execution of the real timeutils functions above an integer-microsecond model of datetime: instants, fixed offsets, second counts, override instants and advance amounts are unbounded-range symbolic integers; the statement\'s equations are decided by z3 (linear integer arithmetic)',
+         'Whole representable range at microsecond resolution, offsets in (-24h, +24h) incl. non-minute offsets, integer second counts incl. the equality boundary. parse_isotime/ISO strings, named zones, list overrides, fractional seconds and TimeFixture are outside the claim; code that goes through float seconds (timedelta.total_seconds) is not decidable here (int->double conversion of 2^58-size values).'),
+})
 NA = {
 }
 def main():
